@@ -13,8 +13,10 @@ REPO = os.environ.get("VERIF_REPO", "/repo")
 COQ = os.path.join(VERIF, "coq")
 BUILD = os.path.join(VERIF, ".build")
 ML = os.path.join(BUILD, "ml")
-HT = os.path.join(BUILD, "harness-target")
+ALT = os.path.abspath(REPO) != "/repo"      # development only (tools/seedtest --copy): checks run against a COPY of /repo
+HT = os.path.join(BUILD, "harness-target-alt" if ALT else "harness-target")
 CVH = os.path.join(HT, "debug", "cvh")
+HARNESS = os.path.join(BUILD, "harness-alt") if ALT else os.path.join(VERIF, "harness")
 MODELRUN = os.path.join(ML, "modelrun")
 NPROC = os.cpu_count() or 4
 
@@ -255,12 +257,19 @@ def build_harness():
 
 
 def _build_harness():
+    if ALT:
+        import shutil
+        shutil.rmtree(HARNESS, ignore_errors=True)
+        shutil.copytree(os.path.join(VERIF, "harness"), HARNESS, ignore=shutil.ignore_patterns("target"))
+        ct = os.path.join(HARNESS, "Cargo.toml")
+        txt = open(ct).read().replace('path = "/repo"', 'path = "%s"' % os.path.abspath(REPO))
+        open(ct, "w").write(txt)
     lock_src = os.path.join(REPO, "Cargo.lock")
-    lock_dst = os.path.join(VERIF, "harness", "Cargo.lock")
+    lock_dst = os.path.join(HARNESS, "Cargo.lock")
     if os.path.exists(lock_src) and not os.path.exists(lock_dst):
         with open(lock_dst, "wb") as f:
             f.write(open(lock_src, "rb").read())
-    rc, out, dt = sh(["cargo", "build", "--offline", "--quiet"], cwd=os.path.join(VERIF, "harness"),
+    rc, out, dt = sh(["cargo", "build", "--offline", "--quiet"], cwd=HARNESS,
                      timeout=1800, env={"RUSTFLAGS": "--cfg casbin_verif -Awarnings", "CARGO_TARGET_DIR": HT})
     return rc == 0, out
 
